@@ -1,7 +1,8 @@
 (* C16 - Shadow backends never influence the client response.
    Only theorem statements, each closed by an exact lemma, and Print Assumptions. *)
 Require Import Verif.Common.Base Verif.Common.Json Verif.Common.Ctx Verif.Common.Heap.
-Require Import Verif.Model.C16 Verif.Spec.C16 Verif.Proof.C16 Verif.Proof.C16_ni.
+Require Import Verif.Model.C16 Verif.Spec.C16 Verif.Proof.C16 Verif.Proof.C16_ni Verif.Proof.C16_call Verif.Proof.C16_oracle.
+Require Import Verif.Corr.C16.
 Close Scope Z_scope.
 
 (* ---- invariance ---- *)
@@ -77,6 +78,28 @@ Theorem C16_unrepaired_graphql_get_refuted : exists r rp,
 Proof. exact unrepaired_refuted. Qed.
 Print Assumptions C16_unrepaired_graphql_get_refuted.
 
+(* sequential merges (two backends each, every combination of filters / GraphQL stages, deep or
+   shallow fan-out clones) write the propagated values into the Params map of the request they
+   were handed: the clone's on the shadow side, the client's on the regular side - both keep
+   to the discipline ... *)
+Theorem C16_sequential_merge_disciplined : forall deep k1 k2,
+  shadow_disciplined (shadow_seq deep k1 k2) = true /\
+  regular_disciplined (regular_seq deep k1 k2) = true /\
+  race_free hobj_eqb (shadow_seq deep k1 k2) = true /\ race_free hobj_eqb (regular_seq deep k1 k2) = true.
+Proof. exact sequential_merge_disciplined. Qed.
+Print Assumptions C16_sequential_merge_disciplined.
+
+(* ... so for every schedule the caller's goroutine, which runs the regular sequential merge,
+   reads what it reads in the endpoint without shadow backends *)
+Theorem C16_sequential_noninterference : forall r d1 d2 k1 k2 k3 k4 sched s,
+  run hobj_eqb (init (shadowed_prog r (shadow_seq d1 k1 k2) (regular_seq d2 k3 k4)) (heap_of r)) sched = Some s ->
+  race_free hobj_eqb (shadowed_prog r (shadow_seq d1 k1 k2) (regular_seq d2 k3 k4)) = true /\
+  forall t, In t (pool s) -> tid t = [] ->
+    (log t ++ exp_log hobj_eqb (rem t) (shadow t))%list =
+    (clone_reads r ++ exp_log hobj_eqb (regular_seq d2 k3 k4) (heap_of r))%list.
+Proof. exact sequential_noninterference. Qed.
+Print Assumptions C16_sequential_noninterference.
+
 (* header VALUE SLICES (the backing arrays `h[k][i] = v` writes) are objects of their own:
    CloneRequestHeaders copies the elements, so a shadow-side stage that rewrites header values
    in place stays inside the discipline (hence, by C16_noninterference, is invisible to the
@@ -96,6 +119,47 @@ Theorem C16_shared_value_slices_refuted : exists r rp,
     (map Acc (aliasing_clone_accs r) ++ Fork (map Acc (inplace_header_writer (sh FHdr) (cl FHdrVals))) :: rp)%list = false.
 Proof. exact aliasing_clone_refuted. Qed.
 Print Assumptions C16_shared_value_slices_refuted.
+
+(* ---- one call as a transition system: the shadow proxy's answer is an explicit event ----
+   For EVERY run of the call (every interleaving of the caller's steps - synchronous
+   CloneRequest, spawn, regular proxy returns - with the shadow goroutine's steps: p2 returning
+   ANY value at ANY point, before the regular proxy, after the caller has returned, or never,
+   then cancel(); and with the client's context being cancelled at any point):
+   (1) the run with every shadow event erased is a run too and gives the caller the same result
+       in the same phase;
+   (2) the regular proxy is handed the request with its whole body (the copy is made before it
+       starts), the shadow request is a full copy;
+   (3) the caller's result is the regular proxy's on that request. *)
+Theorem C16_call_noninfluence : forall R S (p1 : bool -> request -> R) r (ls : list (plabel S)) (s : cstate R S),
+  crun p1 (cinit r) ls = Some s ->
+  (exists s0, crun p1 (cinit r) (erase S ls) = Some s0 /\ c_result s0 = c_result s /\ c_phase s0 = c_phase s) /\
+  c_src s = r /\ (c_phase s <> PStart -> c_clone s = Some r) /\
+  (forall x, c_result s = Some x -> exists cc, x = p1 cc r).
+Proof. exact call_noninfluence. Qed.
+Print Assumptions C16_call_noninfluence.
+
+(* two runs that differ only in what the shadow side did - the values p2 returned, when, or
+   whether it returned at all - give the caller the same *)
+Theorem C16_call_any_shadow : forall R S (p1 : bool -> request -> R) r (ls1 ls2 : list (plabel S)) (s1 s2 : cstate R S),
+  erase S ls1 = erase S ls2 ->
+  crun p1 (cinit r) ls1 = Some s1 -> crun p1 (cinit r) ls2 = Some s2 ->
+  c_result s1 = c_result s2.
+Proof. exact call_any_shadow. Qed.
+Print Assumptions C16_call_any_shadow.
+
+(* late answers: once the caller has returned, no later event (a shadow answer, cancel(), the
+   client's cancellation) changes what it got *)
+Theorem C16_late_answer : forall R S (p1 : bool -> request -> R) (ls : list (plabel S)) (s s' : cstate R S),
+  c_phase s = PReturned -> crun p1 s ls = Some s' ->
+  c_phase s' = PReturned /\ c_result s' = c_result s.
+Proof. exact result_stable. Qed.
+Print Assumptions C16_late_answer.
+
+(* the shadow context's cancel() happens only after p2 has returned, whatever the client does *)
+Theorem C16_shadow_cancel_after_return : forall R S (p1 : bool -> request -> R) r (ls : list (plabel S)) (s : cstate R S),
+  crun p1 (cinit r) ls = Some s -> c_shadow_cancelled s = true -> c_shadow_value s <> None.
+Proof. exact @shadow_cancel_after_return_init. Qed.
+Print Assumptions C16_shadow_cancel_after_return.
 
 (* ---- full copy ---- *)
 (* CloneRequest: the argument keeps its contents (so the regular pipeline reads the whole
@@ -234,6 +298,28 @@ Theorem C16_model_meets_oracle : forall T req b hang id seen t0 tc tf,
 Proof. exact model_meets_oracle. Qed.
 Print Assumptions C16_model_meets_oracle.
 
+(* the same for the other case kinds the generator emits *)
+(* CRun / CSeqRun *)
+Theorem C16_run_model_meets_oracle : forall bs req outs plain regs seen t0 tc tf,
+  let T := match shadow_new bs with BShadowed _ _ t => t | _ => 0%Z end in
+  wf_cres plain -> (0 <= t0)%Z -> (t0 <= seen)%Z -> (tc < t0 + T)%Z -> (t0 + T <= tf)%Z ->
+  spec_run_b bs req true outs plain plain regs regs
+    (map (fun b => model_sobs T req b (b_id b) seen t0 tc tf) (shadow_of (shadow_new bs))) = true.
+Proof. exact run_model_meets_oracle. Qed.
+Print Assumptions C16_run_model_meets_oracle.
+
+(* CHist: for every history length *)
+Theorem C16_hist_model_meets_oracle : forall bs hist plain,
+  bs <> [] -> wf_cres plain -> check_hist bs hist false false plain plain = (true, true).
+Proof. exact hist_model_meets_oracle. Qed.
+Print Assumptions C16_hist_model_meets_oracle.
+
+(* CNew *)
+Theorem C16_new_model_meets_oracle : forall bs,
+  spec_new_b (default_ferr (ids (regular_of (shadow_new bs)))) (new_error "no_backends" default_ferr bs) = true.
+Proof. exact new_model_meets_oracle. Qed.
+Print Assumptions C16_new_model_meets_oracle.
+
 Theorem C16_oracle_sound : forall T req fc b hang s,
   spec_shadow_b T req fc b hang s = true -> ShadowCallOK T req b hang s.
 Proof. exact spec_shadow_sound. Qed.
@@ -279,3 +365,14 @@ Example C16_ex_detached :
   done [1; 2] 5000%Z (with_timeout [{| Ctx.tok := 1; dl := None |}] 7 100%Z 10000%Z) = true /\
   done [1; 2] 10100%Z (shadow_ctx 7 100%Z 10000%Z) = true.
 Proof. vm_compute. repeat split. Qed.
+
+(* a run with a late garbage answer: the client is gone, then the shadow proxy returns *)
+Example C16_ex_late_answer :
+  option_map (fun s : cstate (option string) nat => (c_result s, c_shadow_value s, c_shadow_cancelled s))
+    (crun (fun _ r => q_body r) (cinit ex_req) [LClone; LSpawn; LRegular; LClientCancel; LShadow 599; LShadowCancel])
+  = Some (Some (Some "body"), Some 599, true).
+Proof. vm_compute. reflexivity. Qed.
+(* the regular proxy cannot run before the copy is made *)
+Example C16_ex_copy_first :
+  crun (fun _ r => q_body r) (cinit ex_req) [LSpawn; LRegular] = (None : option (cstate (option string) nat)).
+Proof. vm_compute. reflexivity. Qed.
